@@ -20,7 +20,7 @@ ID = "C13"
 LEVEL = "model_checking"
 MIN_OUTCOMES = 3
 MANIFEST = {
-    'text': "Complete enumeration of a constructed project table (incl. files that lag behind current_version, files that begin with a UTF-8 BOM, files of 6,000 and 2,500 lines with several hunks, a 20,000-character line, and files with FF/control characters, U+2028, NBSP or decomposed text around the version line) x flag sets x message templates, plus fake-git cases in which a fetch brings newer tags, and every subset of six existing tags around the version about to be created (twins that do not match the pattern, a newer valid tag, junk, a pre-release, the new version itself) x scope x committing on/off: the two-step history (update --dry; update) is executed on the real CLI from the same snapshot; the dry run must not change a byte, and whenever it exits 0 the unified diff it printed - applied by a strict applier that checks file names, line numbers, counts and every context/removed line under the file's own separator - must reproduce exactly the bytes the real run writes, and the real run must exit 0.",
+    'text': "Complete enumeration of a constructed project table (incl. files that lag behind current_version, files that begin with a UTF-8 BOM, files of 6,000 and 2,500 lines with several hunks, a 20,000-character line, file patterns with a calendar part under version patterns without one (with --date / --pin-date), and files with FF/control characters, U+2028, NBSP or decomposed text around the version line) x flag sets x message templates, plus fake-git cases in which a fetch brings newer tags, and every subset of six existing tags around the version about to be created (twins that do not match the pattern, a newer valid tag, junk, a pre-release, the new version itself) x scope x committing on/off: the two-step history (update --dry; update) is executed on the real CLI from the same snapshot; the dry run must not change a byte, and whenever it exits 0 the unified diff it printed - applied by a strict applier that checks file names, line numbers, counts and every context/removed line under the file's own separator - must reproduce exactly the bytes the real run writes, and the real run must exit 0.",
     'note': 'mixed line endings are excluded by the property; coloured tty output is not exercised',
     'technique': 'exhaustive enumeration of bounded project x argument space, differential oracle (strict diff applier vs real run) on the real CLI',
 }
@@ -202,6 +202,7 @@ def run_chunk(chunk):
         os.chdir("/")
         return st
     if kind == "large":
+        calendar_only_in_a_file_pattern(st)
         large_files(st)
         os.chdir("/")
         return st
@@ -265,6 +266,21 @@ def fetch_cases(st):
                                                            tags_after_fetch=remote_tags))
 
                 dry_then_real(st, tree, seps, flags, case, f"fetch:{scope}", base_flags=(), vcs=vcs)
+
+
+def calendar_only_in_a_file_pattern(st):
+    """The version pattern has no calendar part, a file pattern has one (a copyright year, a release date line): whatever date the real
+    run uses for it - today's or the one given with --date - the dry run must show the same."""
+    for vp, old in (("MAJOR.MINOR.PATCH", "1.2.3"), ("vMAJOR.MINOR[.PATCH[-TAG]]", "v1.2")):
+        for fpat, text in (("Copyright (c) YYYY Example Authors", "Copyright (c) 2019 Example Authors"), ("released YYYY-0M-0D", "released 2019-03-04"),
+                           ("week YYYY.0W", "week 2019.09")):
+            for flags in (["--patch"], ["--patch", "--date", "2099-05-05"], ["--minor", "--date", "2001-01-01"], ["--patch", "--pin-date"]):
+                cfg = (f'[bumpver]\ncurrent_version = "{old}"\nversion_pattern = "{vp}"\n\n[bumpver.file_patterns]\n'
+                       f'"LICENSE" = ["{fpat}"]\n"a.txt" = ["ver={{version}};"]\n')
+                tree = {"bumpver.toml": cfg.encode(), "LICENSE": ("MIT\n" + text + "\nmore\n").encode(), "a.txt": f"ver={old};\n".encode()}
+                seps = {"bumpver.toml": "\n", "LICENSE": "\n", "a.txt": "\n"}
+                case = {"calendar_in_file_pattern": fpat, "version_pattern": vp, "flags": flags}
+                dry_then_real(st, tree, seps, flags, case, "calendar-part-only-in-a-file-pattern")
 
 
 def large_files(st):
@@ -386,6 +402,9 @@ def replay(case, st):
                 return
             if case.get("large_file"):
                 large_files(st)
+                return
+            if case.get("calendar_in_file_pattern"):
+                calendar_only_in_a_file_pattern(st)
                 return
             if "legacy" in case:
                 for i, lc in enumerate(c04.legacy_cases()):
